@@ -11,9 +11,11 @@
  *
  * Real code: ev_spec_compile (+ parse_signature, parse_args, parse_arg, parse_type) on the real
  * declaration, emu_ev (src/emu/emu_ev.c) + ovni_payload_size (src/rt/ovni.c) on the arbitrary
- * event, then - as ovnidump's emit() -> model_event_print does for an event whose MCV is
- * listed - ev_spec_print -> format_region / parse_printf_format / parse_arg_name /
- * ev_spec_find_arg / print_arg into a 1024-byte buffer.
+ * event, then - as ovnidump's emit() does - the real model_event_print + check_payload
+ * (src/emu/model.c) -> ev_spec_print -> format_region / parse_printf_format / parse_arg_name /
+ * ev_spec_find_arg / print_arg into a 1024-byte buffer.  (The payload-shape check lives in
+ * model_event_print, not in ev_spec_print: the repo's unit test calls the latter directly.)
+ * The lookup by MCV (model_evspec_find) is a ghost returning the compiled declaration.
  *
  * Input: flags byte (all 8 bits), clock, payload of the announced length (0 or 2..16 bytes;
  * jumbo: size word + 0..JMAX data bytes), END-ALIGNED in a heap object, so that any read past
@@ -30,12 +32,12 @@
  *     its declared arguments must be refused, not read),
  *   - a `str` argument is nil-terminated inside the payload.
  *
- * Known finding guard KF_D5_EVSPEC: ev_spec_print never compares the payload size with the
- * declared argument offsets (payload == NULL for a listed event without payload: SIGSEGV in
- * ovnidump); excluded signature = declared arguments and (payload shorter than the declared
+ * -DKF_D5_EVSPEC (off by default; the defect was fixed in the tree by 8de98ba) excludes the
+ * signature of the former finding: declared arguments and (payload shorter than the declared
  * size or string argument without nil inside the payload).
  */
 #include "diag.h"
+#include "c19_libc.h"      /* memchr model (check_payload) */
 #define V_LIBC_MODEL_NO_RENAME
 #include "libc_model.h"
 
@@ -139,10 +141,26 @@ p_snprintf(char *out, size_t cap, const char *fmt, ...)
 #define ENV_LIBC_DONE
 #define ENV_NO_EVENTC
 
+#define ENV_REAL_MODEL_C
 #define HARNESS_INPUTS uint8_t raw[EVMAX]; int sel; int stale_jumbo; int64_t numlen; int64_t outlen;
 #include "C08/model_env.h"
 #include "src/emu/ev_spec.c"
 #include "src/emu/emu_ev.c"
+#include "src/emu/model_evspec.h"
+
+/* The lookup by MCV (model_evspec.c: C18 E_evspec_init) is a ghost: the one compiled spec of the
+ * declaration under test is found for its own code, nothing else is. */
+static struct ev_spec g_spec;
+static struct model_evspec g_evspec;
+struct ev_spec *
+model_evspec_find(struct model_evspec *evspec, char *mcv)
+{
+	V_ASSERT(evspec == &g_evspec, "harness: lookup in the model's table");
+	if (mcv[0] == g_spec.mcv[0] && mcv[1] == g_spec.mcv[1] && mcv[2] == g_spec.mcv[2] && mcv[3] == '\0')
+		return &g_spec;
+	return NULL;
+}
+#include "src/emu/model.c"
 
 static const int ev_idx[] = { EV_IDX };
 static const int ev_psize[] = { EV_PSIZE };
@@ -193,10 +211,9 @@ one(int n)
 {
 	struct ev_decl *decl = &EVLIST[ev_idx[n]];
 	V_ASSERT(decl->signature != NULL, "C19: the real declaration list has this entry");
-	static struct ev_spec spec;
-	int rc = ev_spec_compile(&spec, decl);
+	int rc = ev_spec_compile(&g_spec, decl);
 	V_ASSERT(rc == 0, "C19: the listed signature compiles");
-	V_ASSERT(spec.is_jumbo == ev_jumbo[n] && (int) spec.payload_size == ev_psize[n], "C19: compiled payload shape equals the reference parse of the signature");
+	V_ASSERT(g_spec.is_jumbo == ev_jumbo[n] && (int) g_spec.payload_size == ev_psize[n], "C19: compiled payload shape equals the reference parse of the signature");
 
 	/* ---- arbitrary in-bounds event with the MCV of the declaration */
 	int real_jumbo = (IN.raw[0] & 0x10) != 0;
@@ -229,15 +246,22 @@ one(int n)
 	uint8_t *oevb = base + (EVMAX - evsize);
 	for (int64_t i = 0; i < EVMAX && i < evsize; i++)
 		oevb[i] = IN.raw[i];
-	oevb[1] = (uint8_t) spec.mcv[0];
-	oevb[2] = (uint8_t) spec.mcv[1];
-	oevb[3] = (uint8_t) spec.mcv[2];
+	oevb[1] = (uint8_t) g_spec.mcv[0];
+	oevb[2] = (uint8_t) g_spec.mcv[1];
+	oevb[3] = (uint8_t) g_spec.mcv[2];
 
 	static struct emu_ev e;
 	e.is_jumbo = IN.stale_jumbo;
 	emu_ev(&e, (const struct ovni_ev *) oevb, 0, 0);
-	V_ASSERT(e.mcv[0] == spec.mcv[0] && e.mcv[1] == spec.mcv[1] && e.mcv[2] == spec.mcv[2] && e.mcv[3] == '\0', "C19: the event carries the listed code");
+	V_ASSERT(e.mcv[0] == g_spec.mcv[0] && e.mcv[1] == g_spec.mcv[1] && e.mcv[2] == g_spec.mcv[2] && e.mcv[3] == '\0', "C19: the event carries the listed code");
 	V_ASSERT((int64_t) e.payload_size == psize && (psize == 0) == (e.payload == NULL), "C19: emu_ev payload size and pointer");
+
+	/* ovnidump's emit(): model_event_print(model, ev, buf, 1024) with the model registered */
+	static struct model model;
+	static struct model_spec mspec;
+	mspec.evspec = &g_evspec;
+	model.registered[(uint8_t) g_spec.mcv[0]] = 1;
+	model.spec[(uint8_t) g_spec.mcv[0]] = &mspec;
 
 	g_nprint = 0;
 	int r = -2;
@@ -253,11 +277,11 @@ one(int n)
 				g_outoff = OUTLEN - L;
 				g_out[OUTLEN] = 0x55;              /* canaries around the caller's buffer */
 				if (g_outoff > 0) g_out[g_outoff - 1] = 0x55;
-				r = ev_spec_print(&spec, &e, g_out + g_outoff, L);
+				r = model_event_print(&model, &e, g_out + g_outoff, L);
 				V_ASSERT(g_out[OUTLEN] == 0x55 && (g_outoff == 0 || g_out[g_outoff - 1] == 0x55), "C19: nothing is written outside the caller's buffer");
 				if (r == -1) V_REACH("text-does-not-fit-refused");
 				if (r == 0) V_REACH("text-fits");
-				V_ASSERT(r == 0 || r == -1, "C19: ev_spec_print returns 0 or -1");
+				V_ASSERT(r == 0 || r == -1, "C19: model_event_print returns 0 or -1");
 				if (r == 0) {
 					int nil = 0;
 					for (int k = g_outoff; k < OUTLEN; k++)
@@ -272,10 +296,15 @@ one(int n)
 #else
 	g_numlen = 1;
 	g_outoff = 0;
-	r = ev_spec_print(&spec, &e, g_out, OUTLEN);
+	r = model_event_print(&model, &e, g_out, OUTLEN);
 #endif
 #ifndef SMALLBUF
-	V_ASSERT(r == 0 || r == -1, "C19: ev_spec_print returns 0 or -1");
+	V_ASSERT(r == 0 || r == -1, "C19: model_event_print returns 0 or -1");
+#ifndef KF_D5_EVSPEC
+	if (r == -1 && has_args && short_pl) V_REACH_ARGS("short-payload-refused");
+	if (r == -1 && has_args && psize == 0) V_REACH_ARGS("missing-payload-refused");
+	if (r == -1 && !short_pl && !str_ok) V_REACH_STR("unterminated-string-refused");
+#endif
 	if (r == 0) {
 		int nil = 0;
 		for (int64_t k = 0; k < NILSCAN; k++)
